@@ -18,7 +18,7 @@ def covered (loaded : Option Base) (k : Baseline.Key) : Bool :=
   | none => false
 
 theorem grandfather_mem (loaded : Option Base) (rs : List Res) (r : Res) (h : r ∈ rs) :
-    (if r.status = .failed && covered loaded r.path then { r with status := .grandfathered } else r) ∈
+    (if r.status = .failed && r.kind.recordable && covered loaded r.path then { r with status := .grandfathered } else r) ∈
       grandfather loaded rs := by
   unfold grandfather covered
   cases loaded with
@@ -28,7 +28,7 @@ theorem grandfather_mem (loaded : Option Base) (rs : List Res) (r : Res) (h : r 
     exact List.mem_map.2 ⟨r, h, rfl⟩
 
 theorem grandfather_mem_inv (loaded : Option Base) (rs : List Res) (x : Res) (h : x ∈ grandfather loaded rs) :
-    ∃ r ∈ rs, x = (if r.status = .failed && covered loaded r.path then { r with status := .grandfathered } else r) := by
+    ∃ r ∈ rs, x = (if r.status = .failed && r.kind.recordable && covered loaded r.path then { r with status := .grandfathered } else r) := by
   unfold grandfather covered at *
   cases loaded with
   | none => exact ⟨x, h, by simp⟩
@@ -64,19 +64,19 @@ theorem exit_one_iff (c : Config) (files : List FileIn) (dirs : List DirIn) (pl 
     (disk : Option Base) (f : Flags) (rs : List Res) (d' : Option Base) (e : Int) (st : List Baseline.Key)
     (h : checkRun c files dirs pl sb disk f = .done rs d' e st) :
     e = 1 ↔ f.warnOnly = false ∧
-      ((∃ r ∈ rawResults c files dirs pl sb, r.status = .failed ∧ covered (loadedOf disk f) r.path = false) ∨
+      ((∃ r ∈ rawResults c files dirs pl sb, r.status = .failed ∧ (r.kind.recordable && covered (loadedOf disk f) r.path) = false) ∨
        (f.wae = true ∧ ∃ r ∈ rawResults c files dirs pl sb, r.status = .warning) ∨
        (f.ratchet = some .strict ∧ st ≠ [])) := by
   obtain ⟨hrs, _, he, _⟩ := run_done _ _ _ _ _ _ _ _ h
   have hfail : rs.any (fun x => decide (x.status = .failed)) = true ↔
-      ∃ r ∈ rawResults c files dirs pl sb, r.status = .failed ∧ covered (loadedOf disk f) r.path = false := by
+      ∃ r ∈ rawResults c files dirs pl sb, r.status = .failed ∧ (r.kind.recordable && covered (loadedOf disk f) r.path) = false := by
     rw [hrs]
     constructor
     · intro hh
       obtain ⟨x, hx, hxs⟩ := List.any_eq_true.1 hh
       obtain ⟨r, hr, e'⟩ := grandfather_mem_inv _ _ _ hx
       refine ⟨r, hr, ?_⟩
-      by_cases hc : (r.status = .failed && covered (loadedOf disk f) r.path) = true
+      by_cases hc : (r.status = .failed && r.kind.recordable && covered (loadedOf disk f) r.path) = true
       · rw [if_pos hc] at e'; rw [e'] at hxs; simp at hxs
       · rw [if_neg hc] at e'; subst e'
         simp only [decide_eq_true_eq] at hxs
@@ -84,7 +84,7 @@ theorem exit_one_iff (c : Config) (files : List FileIn) (dirs : List DirIn) (pl 
         exact ⟨hxs, hc⟩
     · rintro ⟨r, hr, hs, hc⟩
       have := grandfather_mem (loadedOf disk f) _ r hr
-      simp only [hs, hc, decide_true, Bool.and_false, Bool.false_eq_true, if_false] at this
+      simp only [hs, decide_true, Bool.true_and, hc, Bool.false_eq_true, if_false] at this
       exact List.any_eq_true.2 ⟨r, this, by simp [hs]⟩
   have hwarn : rs.any (fun x => decide (x.status = .warning)) = true ↔
       ∃ r ∈ rawResults c files dirs pl sb, r.status = .warning := by
@@ -94,7 +94,7 @@ theorem exit_one_iff (c : Config) (files : List FileIn) (dirs : List DirIn) (pl 
       obtain ⟨x, hx, hxs⟩ := List.any_eq_true.1 hh
       obtain ⟨r, hr, e'⟩ := grandfather_mem_inv _ _ _ hx
       refine ⟨r, hr, ?_⟩
-      by_cases hc : (r.status = .failed && covered (loadedOf disk f) r.path) = true
+      by_cases hc : (r.status = .failed && r.kind.recordable && covered (loadedOf disk f) r.path) = true
       · rw [if_pos hc] at e'; rw [e'] at hxs; simp at hxs
       · rw [if_neg hc] at e'; subst e'; simpa using hxs
     · rintro ⟨r, hr, hs⟩
@@ -177,7 +177,8 @@ theorem check_sound_files (c : Config) (files : List FileIn) (dirs : List DirIn)
       have : (0 : Int) = 1 := h1 ⟨hw, Or.inl ⟨_, by
         unfold rawResults
         apply List.mem_append_left
-        exact List.mem_filterMap.2 ⟨f, hf, contentRes_of_counted c f hc⟩, by simp [toStatus, hfail], hcov⟩⟩
+        exact List.mem_filterMap.2 ⟨f, hf, contentRes_of_counted c f hc⟩, by simp [toStatus, hfail], by
+        rw [Bool.and_eq_false_iff]; exact Or.inr hcov⟩⟩
       omega
 
 /-- **soundness for directories**: if `check` exits 0, no scanned directory exceeds a limit its
@@ -200,7 +201,7 @@ theorem check_sound_dirs (c : Config) (files : List FileIn) (dirs : List DirIn) 
       apply List.mem_append_left
       apply List.mem_append_right
       exact List.mem_flatMap.2 ⟨d, hd, List.mem_map.2 ⟨x, hx, rfl⟩⟩, by simp [findingRes, hs], by
-      simpa [findingRes] using hcov⟩⟩
+      rw [Bool.and_eq_false_iff]; exact Or.inr hcov⟩⟩
     omega
 
 /-- soundness for directories in terms of the counts themselves (composing C06's
@@ -245,13 +246,14 @@ theorem check_sound_dir_counts (c : Config) (files : List FileIn) (dirs : List D
               exact Or.inl (Or.inr (by simpa using hf))) hs
         rw [hcov] at this; cases this
 
-/-- placement and sibling findings (C07) fail the run like any other failed result -/
+/-- placement and sibling findings (C07) fail the run like any other failed result: with exit 0
+    each one is of a recordable kind and grandfathered -/
 theorem check_sound_placement (c : Config) (files : List FileIn) (dirs : List DirIn) (pl sb : List Res)
     (disk : Option Base) (fl : Flags) (rs : List Res) (d' : Option Base) (st : List Baseline.Key)
     (h : checkRun c files dirs pl sb disk fl = .done rs d' 0 st) (hw : fl.warnOnly = false)
     (hon : c.structureOn = true) (r : Res) (hr : r ∈ pl ∨ r ∈ sb) (hs : r.status = .failed) :
-    covered (loadedOf disk fl) r.path = true := by
-  cases hcov : covered (loadedOf disk fl) r.path with
+    (r.kind.recordable && covered (loadedOf disk fl) r.path) = true := by
+  cases hcov : (r.kind.recordable && covered (loadedOf disk fl) r.path) with
   | true => rfl
   | false =>
     exfalso
@@ -264,6 +266,18 @@ theorem check_sound_placement (c : Config) (files : List FileIn) (dirs : List Di
       · exact List.mem_append_left _ (List.mem_append_left _ hr)
       · exact List.mem_append_right _ hr, hs, hcov⟩⟩
     omega
+
+/-- … and since the baseline records no placement, naming, depth or sibling violation (fix
+    f5486fc), a run that exits 0 has **no** failed finding of these kinds at all, whatever the
+    baseline holds -/
+theorem check_sound_unrecordable (c : Config) (files : List FileIn) (dirs : List DirIn) (pl sb : List Res)
+    (disk : Option Base) (fl : Flags) (rs : List Res) (d' : Option Base) (st : List Baseline.Key)
+    (h : checkRun c files dirs pl sb disk fl = .done rs d' 0 st) (hw : fl.warnOnly = false)
+    (hon : c.structureOn = true) (r : Res) (hr : r ∈ pl ∨ r ∈ sb) (hk : r.kind = .otherStructure) :
+    r.status ≠ .failed := by
+  intro hs
+  have := check_sound_placement c files dirs pl sb disk fl rs d' st h hw hon r hr hs
+  simp [hk, Kind.recordable] at this
 
 /-! ### the statuses are exactly those of the documented rules -/
 
@@ -293,15 +307,18 @@ theorem status_of_counted (c : Config) (f : FileIn) (h : counted f = true) :
     every other status alone -/
 theorem final_status (loaded : Option Base) (rs : List Res) (r : Res) (h : r ∈ rs) :
     ∃ x ∈ grandfather loaded rs, x.path = r.path ∧ x.kind = r.kind ∧ x.count = r.count ∧
-      x.status = (if r.status = .failed ∧ covered loaded r.path = true then .grandfathered else r.status) := by
+      x.status = (if r.status = .failed ∧ (r.kind.recordable && covered loaded r.path) = true then .grandfathered else r.status) := by
   refine ⟨_, grandfather_mem loaded rs r h, ?_⟩
-  by_cases hc : (r.status = .failed && covered loaded r.path) = true
+  by_cases hc : (r.status = .failed && r.kind.recordable && covered loaded r.path) = true
   · rw [if_pos hc]
     simp only [Bool.and_eq_true, decide_eq_true_eq] at hc
     simp [hc.1, hc.2]
   · rw [if_neg hc]
     simp only [Bool.and_eq_true, decide_eq_true_eq] at hc
-    simp [hc]
+    simp only [Bool.and_eq_true, true_and]
+    rw [if_neg]
+    rintro ⟨h1, h2, h3⟩
+    exact hc ⟨⟨h1, h2⟩, h3⟩
 
 /-- without structure checks (disabled, or `--files`) no directory, placement or sibling result
     is reported -/
